@@ -27,7 +27,7 @@ type Ctx struct {
 	expanded map[*ssa.BasicBlock]map[fact]bool // facts plus what known-true helper calls imply (helperfacts.go)
 	helperS  map[string][]fact                 // summaries of helpers
 	noExpand int                               // >0 while a summary is being computed
-	reach    map[*ssa.Function]bool // reachable from exported API
+	reach    map[*ssa.Function]bool            // reachable from exported API
 	declOf   map[*types.Func]*ast.FuncDecl
 	astFiles map[*ast.File]*packages.Package
 }
